@@ -22,7 +22,7 @@ import (
 //	intalu    {id, op, k, k2, x, y, forms}   one integer operation, written in several source forms
 //	initorder {id, nv, nf, deps, orders}     a package-level dependency graph, written in one or two textual orders
 //	conv      {id, op, ...}                  string <-> int / []byte / []rune conversions
-//	variadic / select / constuse             the cases of GoMisc.tla (one small program each)
+//	variadic / select / constuse / maprange  the cases of GoMisc.tla (one small program each)
 //	minigo    {id, prog, forms}              a program of the mini language of MiniGo.tla, written in one or more source forms
 //	pkginit   {id, imps, vars, inits, forms} a program of several packages (PkgInit.tla): go.mod + one directory per package
 //	godata    {id, ops, capk}                a straight-line program over composite data (GoData.tla): the operations are Go statements
@@ -631,6 +631,8 @@ func (g *mgR) expr(e node) string {
 		return strLit(a)
 	case "v":
 		return fmt.Sprintf("v%d", asInt(e["v"]))
+	case "nocond": // the absent condition of a for statement
+		return ""
 	case "bin", "cmp":
 		return "(" + g.expr(asNode(e["a"])) + " " + asStr(e["op"]) + " " + g.expr(asNode(e["b"])) + ")"
 	case "and":
@@ -766,7 +768,12 @@ func (g *mgR) block(b []node, ind string) string {
 			if v := asInt(s["v"]); v != 0 {
 				init = fmt.Sprintf("v%d := %s", v, g.expr(asNode(s["init"])))
 			}
-			fmt.Fprintf(&o, "%sfor %s; %s; %s {\n%s%s}\n", ind, init, g.expr(asNode(s["cond"])), g.simple(asNode(s["post"])), g.block(nodesOf(s["body"]), ind+"\t"), ind)
+			cond, post := g.expr(asNode(s["cond"])), g.simple(asNode(s["post"]))
+			if init == "" && cond == "" && post == "" { // the bare for statement
+				fmt.Fprintf(&o, "%sfor {\n%s%s}\n", ind, g.block(nodesOf(s["body"]), ind+"\t"), ind)
+				break
+			}
+			fmt.Fprintf(&o, "%sfor %s; %s; %s {\n%s%s}\n", ind, init, cond, post, g.block(nodesOf(s["body"]), ind+"\t"), ind)
 		case "ranges", "rangesl":
 			if l := asStr(s["label"]); l != "" {
 				fmt.Fprintf(&o, "%s:\n", l)
@@ -949,6 +956,11 @@ type miscCase struct {
 	Decl int      `json:"decl"`
 	How  string   `json:"how"`
 	Uses []string `json:"uses"`
+	// maprange (Form is shared with variadic)
+	Kt    string `json:"kt"`
+	Vt    string `json:"vt"`
+	Live  int    `json:"live"`
+	ILive int    `json:"ilive"`
 }
 
 // the value n of element type t, as a Go expression: n itself, or the string of n bytes
@@ -1085,6 +1097,68 @@ func constuseSource(c miscCase) string {
 	return b.String()
 }
 
+// maprangeSource: a range statement over a map literal with one entry (7 / "a" -> 8 / "b"), between other live variables.
+// A string is shown as its length and its bytes, one println each.
+func maprangeSource(c miscCase) string {
+	var b strings.Builder
+	b.WriteString("package main\n\nfunc main() {\n")
+	lit := func(t string, n int, str string) string {
+		if t == "string" {
+			return `"` + str + `"`
+		}
+		return fmt.Sprint(n)
+	}
+	hasK, hasV := c.Form == "k" || c.Form == "kv", c.Form == "kv" || c.Form == "v"
+	if hasK {
+		b.WriteString("\tka := " + lit(c.Kt, 100, "k") + "\n")
+	}
+	if hasV {
+		b.WriteString("\tva := " + lit(c.Vt, 200, "v") + "\n")
+	}
+	if c.Live >= 1 {
+		b.WriteString("\ts1 := \"p\"\n")
+	}
+	if c.Live >= 2 {
+		b.WriteString("\ts2 := \"q\"\n")
+	}
+	if c.ILive >= 1 {
+		b.WriteString("\tn1 := 3\n")
+	}
+	m := fmt.Sprintf("map[%s]%s{%s: %s}", c.Kt, c.Vt, lit(c.Kt, 7, "a"), lit(c.Vt, 8, "b"))
+	switch c.Form {
+	case "k":
+		b.WriteString("\tfor k := range " + m + " {\n\t\tka += k\n\t}\n")
+	case "kv":
+		b.WriteString("\tfor k, v := range " + m + " {\n\t\tka += k\n\t\tva += v\n\t}\n")
+	default:
+		b.WriteString("\tfor _, v := range " + m + " {\n\t\tva += v\n\t}\n")
+	}
+	show := func(t, v string) {
+		if t == "string" {
+			fmt.Fprintf(&b, "\tprintln(1, len(%s))\n\tfor j := 0; j < len(%s); j++ {\n\t\tprintln(1, int(%s[j]))\n\t}\n", v, v, v)
+		} else {
+			fmt.Fprintf(&b, "\tprintln(1, %s)\n", v)
+		}
+	}
+	if hasK {
+		show(c.Kt, "ka")
+	}
+	if hasV {
+		show(c.Vt, "va")
+	}
+	if c.Live >= 1 {
+		show("string", "s1")
+	}
+	if c.Live >= 2 {
+		show("string", "s2")
+	}
+	if c.ILive >= 1 {
+		show("int", "n1")
+	}
+	b.WriteString("}\n")
+	return b.String()
+}
+
 // miscRun runs the program of a case and logs the tokens of its lines (without the leading tag) as "out":
 // integers for variadic and select (booleans and other values never occur), type names for constuse.
 func miscRun(raw []byte) []any {
@@ -1100,6 +1174,8 @@ func miscRun(raw []byte) []any {
 		src = variadicSource(c)
 	case "select":
 		src = selectSource(c)
+	case "maprange":
+		src = maprangeSource(c)
 	default:
 		src = constuseSource(c)
 	}
@@ -1451,7 +1527,7 @@ func main() {
 					return err
 				}
 				jobs = append(jobs, func() []any { return mgRun(c) })
-			case "variadic", "select", "constuse":
+			case "variadic", "select", "constuse", "maprange":
 				jobs = append(jobs, func() []any { return miscRun(raw) })
 			case "pkginit":
 				jobs = append(jobs, func() []any { return pkgRun(raw) })
